@@ -86,28 +86,18 @@ Proof.
       try assumption
     | (* D4 *)
       try exact D4 ].
-  - right. intro Hin. apply sess_of_tids in Hin. eapply (D2 _ _ Hth); [rewrite Hpc; reflexivity|exact Hin].
-  - right. intro Hin. apply sess_of_tids in Hin. eapply (D2 _ _ Hth); [rewrite Hpc; reflexivity|exact Hin].
-  - left. eexists. apply sess_of_cons_same.
-  - destruct (Nat.eq_dec (t_pub th0) (t_pub th)) as [E|E].
-    + exfalso. apply H. eapply (smu_excl _ _ _ _ _ _ B' H0 Hth); [rewrite Hp; reflexivity|rewrite Hpc; reflexivity|exact E].
-    + rewrite (sess_of_cons_other _ _ _ _ _ E). exact I0.
-  - intro p. destruct (Nat.eq_dec p (t_pub th)) as [E|E].
-    + subst p. rewrite sess_of_cons_same. destruct (D3 _ _ Hth Hpc) as [[r E]|N].
-      * rewrite E, compress_cons_same, <- E. apply D4.
-      * rewrite (compress_cons_fresh _ _ N). constructor; [|apply D4].
-        intro Hc. apply compress_subset in Hc. contradiction.
-    + rewrite (sess_of_cons_other _ _ _ _ _ E). apply D4.
-  - left. eexists. apply sess_of_cons_same.
-  - destruct (Nat.eq_dec (t_pub th0) (t_pub th)) as [E|E].
-    + exfalso. apply H. eapply (smu_excl _ _ _ _ _ _ B' H0 Hth); [rewrite Hp; reflexivity|rewrite Hpc; reflexivity|exact E].
-    + rewrite (sess_of_cons_other _ _ _ _ _ E). exact I0.
-  - intro p. destruct (Nat.eq_dec p (t_pub th)) as [E|E].
-    + subst p. rewrite sess_of_cons_same. destruct (D3 _ _ Hth Hpc) as [[r E]|N].
-      * rewrite E, compress_cons_same, <- E. apply D4.
-      * rewrite (compress_cons_fresh _ _ N). constructor; [|apply D4].
-        intro Hc. apply compress_subset in Hc. contradiction.
-    + rewrite (sess_of_cons_other _ _ _ _ _ E). apply D4.
+  all: try (exact (D3 _ _ Hth Hpc)).
+  all: try (right; intro Hin; apply sess_of_tids in Hin; eapply (D2 _ _ Hth); [rewrite Hpc; reflexivity|exact Hin]; fail).
+  all: try (left; eexists; apply sess_of_cons_same; fail).
+  all: try (destruct (Nat.eq_dec (t_pub th0) (t_pub th)) as [E|E];
+            [ exfalso; apply H; eapply (smu_excl _ _ _ _ _ _ B' H0 Hth); [rewrite Hp; reflexivity|rewrite Hpc; reflexivity|exact E]
+            | rewrite (sess_of_cons_other _ _ _ _ _ E); exact I0 ]; fail).
+  all: intro p; destruct (Nat.eq_dec p (t_pub th)) as [E|E];
+    [ subst p; rewrite sess_of_cons_same; destruct (D3 _ _ Hth Hpc) as [[r E]|N];
+      [ rewrite E, compress_cons_same, <- E; apply D4
+      | rewrite (compress_cons_fresh _ _ N); constructor; [|apply D4];
+        intro Hc; apply compress_subset in Hc; contradiction ]
+    | rewrite (sess_of_cons_other _ _ _ _ _ E); apply D4 ].
 Qed.
 
 Theorem invD_reach cap s : reach fixed cap s -> InvD s.
